@@ -1,4 +1,4 @@
-//@unit name=tupleversion props=C03,C04,C18
+//@unit name=tupleversion props=C03,C04,C18,C16
 //@strip-pub
 // Unit `tupleversion`: Tuple::add_version_with, the function every UPDATE goes through.
 //   C04/C03/C18: the new newest version must be created BY THE WRITING TRANSACTION (header creator id =
